@@ -185,16 +185,6 @@ End LDF.
    exactly representable and [rnd53] returns it unchanged; only overflow
    (|result| >= 2^1024 after rounding) is outside. *)
 
-(* floor(log2 (n/d)) for positive n, d *)
-Definition ilog2q (n d : positive) : Z :=
-  let a := Z.log2 (Zpos n) in
-  let b := Z.log2 (Zpos d) in
-  let e := (a - b)%Z in
-  (* 2^e <= n/d ?  <->  d * 2^e <= n *)
-  if (0 <=? e)%Z
-  then (if (Zpos d * 2 ^ e <=? Zpos n)%Z then e else e - 1)%Z
-  else (if (Zpos d <=? Zpos n * 2 ^ (- e))%Z then e else e - 1)%Z.
-
 (* round-half-even of the rational n/d (d > 0) to an integer *)
 Definition rne (n : Z) (d : positive) : Z :=
   let q := (n / Zpos d)%Z in
@@ -205,19 +195,21 @@ Definition rne (n : Z) (d : positive) : Z :=
   | Eq => if Z.even q then q else (q + 1)%Z
   end.
 
+(* x > 0: L = floor(log2 x) (the candidate log2 num - log2 den is L or L+1), the
+   kept bits are those of weight >= 2^e with e = L - (prec-1) *)
+Definition rnd_pos (prec : Z) (x : Q) : Q :=
+  let e0 := (Z.log2 (Qnum x) - Z.log2 (Zpos (Qden x)))%Z in
+  let L := if Qle_bool (2 ^ e0) x then e0 else (e0 - 1)%Z in
+  let e := (L - (prec - 1))%Z in
+  let y := x * 2 ^ (- e) in
+  inject_Z (rne (Qnum y) (Qden y)) * 2 ^ e.
+
 Definition rnd_prec (prec : Z) (x : Q) : Q :=
-  match Qnum x with
+  let r := Qred x in
+  match Qnum r with
   | Z0 => 0
-  | Zpos n =>
-    let e := (ilog2q n (Qden x) - (prec - 1))%Z in           (* exponent of the last kept bit *)
-    let m := if (0 <=? e)%Z then rne (Zpos n) (Qden x * Z.to_pos (2 ^ e))
-             else rne (Zpos n * 2 ^ (- e)) (Qden x) in
-    inject_Z m * (2 ^ e)
-  | Zneg n =>
-    let e := (ilog2q n (Qden x) - (prec - 1))%Z in
-    let m := if (0 <=? e)%Z then rne (Zpos n) (Qden x * Z.to_pos (2 ^ e))
-             else rne (Zpos n * 2 ^ (- e)) (Qden x) in
-    - (inject_Z m * (2 ^ e))
+  | Zpos _ => rnd_pos prec r
+  | Zneg _ => - rnd_pos prec (- r)
   end.
 
 Definition rnd53 : Q -> Q := rnd_prec 53.
